@@ -973,7 +973,23 @@ class FnGen(Gen):
         return params, variadic, required, len(params), names
 
     def fn_stmt(self, d):
-        c = self.r.below(12)
+        c = self.r.below(13)
+        if c == 12:
+            # a function literal whose value is discarded: its body must not run
+            r1, x, i = self.fresh("any"), self.fresh("int"), self.fresh("int")
+            self.declare(r1, "any")
+            lit = ("fn", [(("tid", x, None), None)] if self.chance(1, 2) else [], None, None,
+                   ("block", [("print", ("str", "body")), ("int", 1)]))
+            k = self.r.below(3)
+            if k == 0:
+                return ("block", [lit, ("assign", r1, None, ("int", self.r.below(9)))])
+            if k == 1:
+                return ("block", [("assign", r1, None, ("int", 0)),
+                                  ("for", [("tid", i, None)], ("range", ("int", 0), ("int", 3), False),
+                                   ("block", [lit, ("opassign", "+", r1, ("id", i))]))])
+            return ("block", [("assign", r1, None, ("null",)),
+                              ("try", ("block", [lit, ("assign", r1, None, ("int", 5))]),
+                               [(self.fresh("any"), None, ("block", [("assign", r1, None, ("int", 6))]))], None)])
         if c < 4:
             f = self.fresh("fn")
             params, variadic, lo, hi, names = self.param_list()
